@@ -25,6 +25,10 @@ def _gen(seed, index, profile):
     # ... and a sixth pass decisions / rewards as pandas Series and contexts as a DataFrame (both sides of a relation alike)
     if random.Random("%s/pd/%s/%s" % (seed, profile.get("name", ""), index)).random() < 0.16:
         g.cfg["as_pandas"] = True
+    # ... and a tenth hand the rewards over as a boolean / narrow-integer numpy array (batches of integers only)
+    r3 = random.Random("%s/rdt/%s/%s" % (seed, profile.get("name", ""), index))
+    if r3.random() < 0.1:
+        g.cfg["reward_dtype"] = r3.choice(["bool", "bool", "uint8", "int8", "int16", "int32"])
     # a quarter of the neighbourhood-policy scenarios run with several (thread) workers: both sides of a relation
     # use the same configuration, and results do not depend on n_jobs (C05).  TreeBandit with randomised leaf policies
     # is excluded: its workers share the bandit's generator (known finding K3), so thread timing would leak in.
@@ -163,6 +167,36 @@ def gen_c07(seed, index):
     return {"cfg": scn["cfg"], "ops": scn["ops"], "refit": {"d": d, "r": r, "c": c}, "cont": cont}
 
 
+def gen_c07_orphan(seed, index):
+    """Clusters with about as many clusters as the new data set D has (distinct) rows, after a larger first fit:
+    a cluster that ends up without a single row of D must answer like the cluster of a fresh bandit (its policy is
+    re-fit on an empty slice), not from what it learned before. Queries cover a grid so that every centre is hit."""
+    rng = random.Random("%s/C07-orphan/%s" % (seed, index))
+    lpk = rng.choice(["greedy", "ucb", "softmax", "thompson", "linucb", "lingreedy"])
+    lp = G.gen_lp(rng, lpk)
+    if "eps" in lp:
+        lp["eps"] = 0.0
+    n = rng.choice([5, 6, 7, 8])
+    arms = [1, 2, 3]
+    mini = rng.random() < 0.7
+    cfg = {"lp": lp, "np": {"k": "clusters", "n": n, "mini": mini}, "arms": arms, "seed": rng.randint(0, 10 ** 6),
+           "binz": None, "n_jobs": 1}
+    rew = (lambda: rng.choice([0, 1])) if lpk == "thompson" else (lambda: rng.choice([1, 2, 3, 5, 8]))
+    n1 = rng.choice([40, 80, 150])
+    pt = lambda: [round(rng.uniform(-2, 2), 2), round(rng.uniform(-2, 2), 2)]      # noqa: E731
+    fit1 = {"op": "fit", "d": [rng.choice(arms) for _ in range(n1)], "r": [rew() for _ in range(n1)], "c": [pt() for _ in range(n1)]}
+    n2 = n + rng.choice([0, 1, 2, 4, 7])
+    if rng.random() < 0.4:
+        # fewer distinct rows than clusters
+        base = [pt() for _ in range(rng.randint(2, n - 1))]
+        c2 = [list(rng.choice(base)) for _ in range(n2)]
+    else:
+        c2 = [pt() for _ in range(n2)]
+    refit = {"d": [rng.choice(arms) for _ in range(n2)], "r": [rew() for _ in range(n2)], "c": c2}
+    grid = [[-2 + 0.5 * i, -2 + 0.5 * j] for i in range(9) for j in range(9)]
+    return {"cfg": cfg, "ops": [fit1, {"op": "pexp", "c": [pt()]}], "refit": refit, "cont": [{"op": "pexp", "c": grid}, {"op": "pred", "c": grid}]}
+
+
 @twin("refit_vs_fresh")
 @T.quiet
 def refit_vs_fresh(scn):
@@ -238,6 +272,19 @@ def gen_c09(seed, index):
         if rng.random() < 0.7:
             g.op_add()
         g.op_warm()
+    r2 = random.Random("%s/C09-live/%s" % (seed, index))
+    if r2.random() < 0.3:
+        # the live bandit answers a prediction, then an arm arrives that is never observed: whatever the prediction
+        # left behind must not outlive the arm change; with all-negative rewards the new arm (expectation 0) is the best
+        if g.lpk not in ("thompson", "popularity") and r2.random() < 0.6:
+            for op in scn["ops"]:
+                if op["op"] in ("fit", "pfit"):
+                    op["r"] = [-abs(x) - 1 if isinstance(x, (int, float)) else x for x in op["r"]]
+        keep = g.ops
+        g.ops = []
+        g.op_query("pred")
+        g.op_add()
+        g.ops = keep + g.ops if r2.random() < 0.3 else g.ops
     tail = g.ops
     g.ops = []
     g.op_query("pexp")
@@ -569,6 +616,43 @@ def gen_c05_large(seed, index):
     scn["jobs"] = rng.choice([2, 3, 4])
     scn["backend"] = "threading"
     return scn
+
+
+def gen_c05_readd(seed, index):
+    """worker processes see a pickled copy of the bandit, in-process workers the bandit itself: anything a query leaves
+    on the bandit would separate the two. History: train, query, remove an arm, add it again under the same label,
+    train it again with rows of the same shape (same number of rows per arm, so equal leaf/bucket sizes) but other
+    rewards, query. Compared: n_jobs=1 against a process pool."""
+    rng = random.Random("%s/C05-readd/%s" % (seed, index))
+    npk = ["tree", "tree", "knn", "radius", "lsh", "clusters"][index % 6]
+    lpk = rng.choice(["ucb", "ucb", "greedy"] if npk == "tree" else ["ucb", "greedy", "softmax", "thompson", "linucb", "lints"])
+    lp = G.gen_lp(rng, lpk)
+    if "eps" in lp:
+        lp["eps"] = 0.0
+    arms = [1, 2, 3]
+    d = 2
+    npc = G.gen_np(rng, npk, len(arms), d)
+    if npc["k"] == "radius":
+        npc["probs"] = None
+    if npc["k"] == "lsh":
+        npc["probs"] = None
+    if npc["k"] == "clusters":
+        npc["n"] = 2
+    k = rng.choice([2, 3, 4])
+    rew = (lambda: rng.choice([0, 1])) if lpk == "thompson" else (lambda: rng.choice([0, 1, 2, 3, 5]))
+    rows = [[float(rng.randint(0, 3)), float(rng.randint(0, 3))] for _ in range(k)]
+    dd, rr, cc = [], [], []
+    for a in arms:
+        for x in rows:
+            dd.append(a); rr.append(rew()); cc.append(list(x))          # noqa: E702
+    q = {"op": "pexp", "c": [list(x) for x in rows] + [[1.0, 2.0]]}
+    x = arms[-1]
+    again = {"op": "pfit", "d": [x] * k, "r": [rew() + 1 for _ in range(k)] if lpk != "thompson" else [rng.choice([0, 1]) for _ in range(k)],
+             "c": [list(r) for r in rows]}
+    ops = [{"op": "fit", "d": dd, "r": rr, "c": cc}, dict(q), dict(q, op="pred"), {"op": "rem", "arm": x}, {"op": "add", "arm": x, "binz": None},
+           again, dict(q), dict(q, op="pred")]
+    cfg = {"lp": lp, "np": npc, "arms": arms, "seed": rng.randint(0, 10 ** 6), "binz": None, "n_jobs": 1}
+    return {"cfg": cfg, "ops": ops, "jobs": 2, "backend": [None, "loky", "multiprocessing"][index % 3]}
 
 
 def is_k3(cfg):
@@ -1141,10 +1225,17 @@ def outputs_over_arms(scn):
     """after every step: arms as expected; predict is a current arm; predict_expectations has exactly the
     current arms as keys in arm-list order; m > 1 rows give a list of m results, otherwise a single result"""
     T.register_labels(scn)
-    a = S.make_mab(scn["cfg"])
+    # two bandits constructed from one list object: the history of one is no part of the history of the other
+    shared = list(scn["cfg"]["arms"])
+    a = S.make_mab(scn["cfg"], arms=shared)
+    sibling = S.make_mab(scn["cfg"], arms=shared)
     expected = T.canon(list(scn["cfg"]["arms"]))
+    initial = list(expected)
     for i, op in enumerate(scn["ops"]):
         res = T.apply_op(a, op)
+        if T.canon(list(sibling.arms)) != initial:
+            return "step %d (%s): the arm list of a second bandit constructed from the same list changed: %r, expected %r" % (
+                i, op["op"], T.canon(list(sibling.arms)), initial)
         if res[0] == "ok":
             if op["op"] == "add":
                 expected = expected + [T.canon(op["arm"])]
